@@ -102,7 +102,7 @@ PROPS = {
         "kx": [],
         "technique": "Verus contracts on the extracted radicle-crdt merge functions: merge == join spec; ACI lemmas per impl (trait proof obligations)",
         "explanation": "Trait Semilattice carries ghost join_v/lawful and three law_* proof obligations; every impl's real merge body is verified to equal join_v over the abstract view, and every impl must prove idempotence, commutativity, associativity of its join_v.",
-        "not_decided": "GMap::insert, GMap::merge, GSet::merge bodies use BTreeMap entry/into_iter APIs outside vstd: their contracts are assumed by Verus (external_body).",
+        "not_decided": "GMap::insert (BTreeMap entry API) and GSet::merge (into_keys) are outside vstd: their contracts are assumed by Verus (external_body). GMap::merge's body IS verified (loop invariant over a by-value iteration stand-in that yields every entry once).",
     },
     "C29": {
         "vx": ["service_time"],
